@@ -1,5 +1,6 @@
 import SurfModel.Proto
 import SurfModel.Vt
+import SurfModel.VtEnc
 def main : IO Unit := SurfModel.Proto.serve fun
-  | "c05" :: rest => SurfModel.Vt.handle rest
+  | "c05" :: rest => SurfModel.Vt.handleEnc rest
   | _ => "bad-op"
